@@ -52,15 +52,21 @@ def check(c):
                 break
         counter = None
         if loop is not None:
-            for n in ast.walk(loop.test):
-                if isinstance(n, ast.Compare) and len(n.ops) == 1 and \
-                        isinstance(n.ops[0], ast.Lt) and isinstance(
-                            n.left, ast.Name):
-                    counter = n.left.id
-                elif isinstance(n, ast.Compare) and len(n.ops) == 1 and \
-                        isinstance(n.ops[0], ast.Gt) and isinstance(
-                            n.comparators[0], ast.Name):
-                    counter = n.comparators[0].id
+            # any spelling of `<name> < <limit>` in the loop test:
+            # `n < lim`, `lim > n`, `not n >= lim`, `not (lim and n >= lim)`
+            from sa.pat import nf, canon_cmp
+
+            def leaves(t):
+                if t[0] == 'atom':
+                    yield t
+                else:
+                    for m in t[1]:
+                        yield from leaves(m)
+            for _k, node, pol in leaves(nf(loop.test, True)):
+                cc = canon_cmp(node, pol)
+                if cc and cc[0] == '<' and cc[3] and isinstance(
+                        cc[1], ast.Name):
+                    counter = cc[1].id
         cn = counter or '_n'
         c.guard('C05.release-bounded', a,
                 [AnyOf('!_.limit', '_.limit == 0', f'{cn} < _.limit')], rel)
